@@ -298,6 +298,13 @@ func c20Dispatch(idx int, seed uint64) {
 					fail("c20:subscribe-call", err.Error())
 					return
 				}
+				// the call has returned: the application goes on using its message object (prepares its
+				// next request in it) while the SUBACK is still on its way
+				if r.Bool() {
+					m.RemoveTopic([]byte(fs[0]))
+					m.AddTopic([]byte("c20/never/requested"), 0)
+					out.Count("c20.request_objects_reused_before_ack", 1)
+				}
 			}
 			// the peer answers
 			var sub *rc.Packet
@@ -371,6 +378,12 @@ func c20Dispatch(idx int, seed uint64) {
 				if err := <-callErr; err != nil {
 					fail("c20:unsubscribe-call", err.Error())
 					return
+				}
+				// the same for the UNSUBSCRIBE object: it now names another filter that is still subscribed
+				if other := cand[r.Intn(len(cand))]; other != f && r.Bool() {
+					m.RemoveTopic([]byte(f))
+					m.AddTopic([]byte(other))
+					out.Count("c20.request_objects_reused_before_ack", 1)
 				}
 			}
 			var un *rc.Packet
